@@ -11,12 +11,15 @@ import (
 	"encoding/json"
 	"flag"
 	"fmt"
+	"github.com/dave/jennifer/jen"
+	"io"
 	"os"
 	"path/filepath"
 	"runtime/debug"
 	"sort"
 	"strconv"
 	"sync"
+	"sync/atomic"
 	"testing"
 	"time"
 
@@ -540,3 +543,38 @@ func Together[C any](fn func(C) error) func(Batch[C]) error {
 		return nil
 	}
 }
+
+// FailedFragments performs, in this goroutine, fragment renders that fail the way a caller's renders do —
+// gofmt rejects the fragment, the writer refuses the bytes, a literal of an unsupported type or a Dict next to
+// other items panics half-way through (recovered as a caller would) — over packages whose names collide
+// (crypto/rand, math/rand, text/template, two packages called conf). What a failed render left behind is no
+// business of the next one.
+func FailedFragments() {
+	quiet := func(f func()) {
+		defer func() { _ = recover() }()
+		f()
+	}
+	decoys := []func(){
+		func() { _ = jen.Case(jen.Qual("crypto/rand", "Reader")).Render(io.Discard) },
+		func() {
+			_ = jen.Id("x").Op(":=").Lit("leftover").Op("+").Qual("text/template", "New").Op(")").Render(io.Discard)
+		},
+		func() { _ = jen.Id("y").Op(":=").Qual("example.com/zero/conf", "Z").Render(failWriter{}) },
+		func() { _ = jen.Id("z").Op(":=").Lit("leftover2").Op("+").Lit(struct{ A int }{1}).GoString() },
+		func() {
+			_ = jen.Id("T").Values(jen.Dict{jen.Id("a"): jen.Qual("html/template", "New")}, jen.Id("extra")).GoString()
+		},
+		func() { _ = jen.Id("A").Int().Tag(map[string]string{"leftover": "tag"}).Render(io.Discard) },
+	}
+	// (a different one comes last every time: what the most recent failure left behind is what the next render meets)
+	k := int(failedFragmentsCalls.Add(1))
+	for i := range decoys {
+		quiet(decoys[(i+k)%len(decoys)])
+	}
+}
+
+var failedFragmentsCalls atomic.Int64
+
+type failWriter struct{}
+
+func (failWriter) Write(p []byte) (int, error) { return 0, fmt.Errorf("writer fails") }
